@@ -324,7 +324,14 @@ func (r *Runner) execMacro(a Action) {
 		if _, L2 := r.leader(); L2 != nil && L2 != L {
 			r.doApply(L2, max(1, a.Arg), 0)
 			w.Advance(30*time.Millisecond, r.sample)
-			r.doSnapshot(L2)
+			if len(a.Set) > 1 && a.Set[1] > 0 && !r.stillCut(L2.ID()) {
+				// the new leader is given a user Restore instead of snapshotting:
+				// the old leader comes back with a tail that may reach past it
+				r.doUserRestore(L2, 3, a.Set[1]-1)
+				r.feat("stale-suffix-meets-user-restore")
+			} else {
+				r.doSnapshot(L2)
+			}
 			w.Advance(30*time.Millisecond, r.sample)
 			r.feat("stale-suffix-built")
 		}
@@ -358,6 +365,54 @@ func (r *Runner) execMacro(a Action) {
 			w.Mu.Unlock()
 		}
 		r.exec(Action{Op: "heal"})
+	case "staleis":
+		// a lagging follower is being sent a snapshot; the request lingers in the
+		// network while its sender is deposed and the follower moves on to a new
+		// leader of a higher term; then the old request arrives
+		hold := int(3*r.maxHB()/time.Millisecond) + 50
+		if hold >= 10*r.P.RPCms-20 {
+			r.execMacro(Action{Op: "lagcompact", N: a.N})
+			return
+		}
+		fi := r.resolve(-2)
+		r.exec(Action{Op: "isolate", Srv: fi})
+		if _, L := r.leader(); L != nil {
+			r.doApply(L, max(2, a.N), 0)
+			w.Advance(40*time.Millisecond, r.sample)
+			r.doSnapshot(L)
+			w.Advance(40*time.Millisecond, r.sample)
+		}
+		w.Mu.Lock()
+		r.holdISms, r.heldISFrom, r.heldISUntil = hold, "", 0
+		w.Mu.Unlock()
+		r.exec(Action{Op: "heal"})
+		for k := 0; k < 200; k++ {
+			w.Mu.Lock()
+			seen := r.heldISFrom
+			w.Mu.Unlock()
+			if seen != "" {
+				break
+			}
+			w.Advance(time.Millisecond, r.sample)
+		}
+		w.Mu.Lock()
+		from, until := r.heldISFrom, r.heldISUntil
+		r.holdISms = 0
+		w.Mu.Unlock()
+		if from == "" {
+			return
+		}
+		for i, id := range r.ids {
+			if id == from {
+				r.exec(Action{Op: "isolate", Srv: i}) // the sender loses its majority and is replaced
+			}
+		}
+		if d := until - 3 - w.Now(); d > 0 {
+			w.Advance(time.Duration(d)*time.Millisecond, r.sample)
+		}
+		r.exec(Action{Op: "heal"}) // the old request can be delivered now
+		w.Advance(20*time.Millisecond, r.sample)
+		r.feat("stale-installsnapshot-from-a-deposed-leader")
 	case "inflightfault":
 		// the leader has calls in flight (its followers do not answer), then its
 		// own log store fails the next append
